@@ -140,7 +140,7 @@ func runDetVariant(e *detEnv, variant string) (dv DetVariant) {
 			dv.Text = Wt.log
 		}
 	}()
-	if U, err = dialBin(2, e.addr, true); err != nil {
+	if U, err = dialBin(2, e.addr, true, e.db); err != nil {
 		return fail("dial U: %v", err)
 	}
 	conns["U(releaser,conn2)"] = U
@@ -157,7 +157,7 @@ func runDetVariant(e *detEnv, variant string) (dv DetVariant) {
 
 	switch variant {
 	case "wake", "text":
-		if H, err = dialBin(0, e.addr, true); err != nil {
+		if H, err = dialBin(0, e.addr, true, e.db); err != nil {
 			return fail("dial H: %v", err)
 		}
 		conns["H(holder,conn0)"] = H
@@ -168,7 +168,7 @@ func runDetVariant(e *detEnv, variant string) (dv DetVariant) {
 		}
 		step("H: LOCK K (lock id h, expiry 60 s) -> SUCCED; H holds K")
 		if variant == "wake" {
-			if Wb, err = dialBin(1, e.addr, true); err != nil {
+			if Wb, err = dialBin(1, e.addr, true, e.db); err != nil {
 				return fail("dial W: %v", err)
 			}
 			conns[victimName] = Wb
@@ -212,7 +212,7 @@ func runDetVariant(e *detEnv, variant string) (dv DetVariant) {
 		}
 		step("H: UNLOCK K -> SUCCED; H's request goroutine goes on into wakeUpWaitLocks: grants K to W under the shard mutex, releases the shard mutex, and parks on W's connection mutex BEFORE it has read the fields of W's command object")
 	case "direct":
-		if Wb, err = dialBin(1, e.addr, true); err != nil {
+		if Wb, err = dialBin(1, e.addr, true, e.db); err != nil {
 			return fail("dial W: %v", err)
 		}
 		conns[victimName] = Wb
